@@ -544,6 +544,12 @@ def run_check(prop_id, tier, seed):
             fails = sorted(merged[part.name]['failures'].items(), key=lambda kv: case_size(kv[1][0]))
             n_shrink = 0 if getattr(part, 'no_shrink', False) else 6
             for sig, (case, fj, cnt) in fails[:n_shrink]:
+                if sig.startswith('termination:'):
+                    # a failure judged by the clock is not minimised: the smallest case that still fails sits exactly on the
+                    # time limit and stops failing on a faster or less busy machine (seen with the corpus case of seed C01-h)
+                    path = write_replay(prop_id, part.name, case, fj, seed, tier, False)
+                    violations.append((part.name, sig, path, '%d cases; %s' % (cnt, json.dumps(fj, default=repr)[:1500])))
+                    continue
                 shrink_tasks.append((prop_id, part.name, case, sig, budget, open_classes))
             for sig, (case, fj, cnt) in fails[n_shrink:]:
                 path = write_replay(prop_id, part.name, case, fj, seed, tier, False)
